@@ -53,6 +53,27 @@ type SeqV struct { // abstract sequence: array term + offset + length
 
 func (fr *Frame) evalBool(e Expr, st *State, names map[string]Value) (string, error) {
 	env := &evalEnv{fr: fr, st: st, old: fr.entry, names: names}
+	// inside a loop body, atentry() refers to the innermost enclosing loop
+	if fr.cur != nil && fr.depth == 0 {
+		var best *loopInfo
+		for _, li := range fr.loops {
+			if li.blocks[fr.cur] && (best == nil || len(li.blocks) < len(best.blocks)) {
+				best = li
+			}
+		}
+		if best != nil {
+			if lr := loopRuns[best]; lr != nil && lr.entry != nil {
+				env.loopEntry = lr.entry
+				env.loopEntryNames = fr.phiNames(best, lr.entryPhi, intV(bvLit(0, 64)))
+				for k, v := range names {
+					env.loopEntryNames[k] = v
+				}
+			} else if fr.run.dry > 0 {
+				// write-set discovery pass: the loop has not been entered yet; nothing is recorded
+				env.loopEntry = st
+			}
+		}
+	}
 	return fr.evalBoolEnv(e, env)
 }
 
@@ -1233,6 +1254,24 @@ func (fr *Frame) evalCall(x *ECall, env *evalEnv) (Value, error) {
 			return bv(s.Tag, 16, false), nil
 		}
 		return nil, fmt.Errorf("tag of %T", v)
+	case "isroot":
+		// isroot(p): p (of type *T, T a struct that is never embedded by value) is nil or points to the
+		// start of an allocation of type T - a fact of Go's type system, not of this program
+		v, err := arg(0)
+		if err != nil {
+			return nil, err
+		}
+		sc, ok := v.(*Sc)
+		if !ok || sc.K != kRef || sc.Ty == nil {
+			return nil, fmt.Errorf("isroot of %T", v)
+		}
+		pt, ok := sc.Ty.Underlying().(*types.Pointer)
+		if !ok {
+			return nil, fmt.Errorf("isroot: not a pointer")
+		}
+		r.declareOnce("(declare-fun rtype (" + sRef + ") Int)")
+		id := r.tagOf(pt.Elem())
+		return boolV(or(eq(sc.T, refLit(0)), and(fmt.Sprintf("(= (mod %s %d) 0)", sc.T, refStride), fmt.Sprintf("(= (rtype %s) (bv2nat %s))", sc.T, id)))), nil
 	case "dyn", "as":
 		// dyn(x, T): the interface value x holds a *T (T a named type of the package);
 		// as(x, T): the *T it holds (meaningful only under dyn(x, T))
